@@ -285,6 +285,9 @@ func RunOn(c *Case, p *Prepared, kb *ast.KnowledgeBase) *Report {
 		if c.PriorSameDC && c.ReuseDC == nil {
 			priorSame = true
 		}
+	} else if c.PriorSameDC && c.PriorOtherInstance && c.PriorKB != nil && c.ReuseDC == nil {
+		// the caller supplies both instances: the one for the earlier call and the one to validate
+		priorSame = true
 	}
 	var live *facts.State
 	var dc ast.IDataContext
